@@ -42,6 +42,7 @@ METHOD_CHARS = 'ABCDEFGHIJKLMNOPQRSTUVWXYZabcdefghijklmnopqrstuvwxyz0123456789-_
 SEG_ALPHABETS = [u'abcXYZ019-._~', u'a b+&=?#%;:@,!$\'()*', u'äöüßéñÿ', u'€→日本語', u'\U0001f600\U0001f4a9x', u'/a', u'%41%7e']
 CTL_ALPHABETS = [u'\x10\x1f\x7fa', u'\x01\x0fa']
 HEADER_NAMES = ['X-Foo', 'X-Bar', 'Accept-Language', 'Cache-Control', 'X-Custom-Header', 'From', 'Pragma', 'Warning']
+DEFAULTED_NAMES = ['User-Agent', 'Accept', 'Accept-Ranges', 'Server', 'Allow']
 SOURCES = ['bytes', 'text', 'list', 'gen', 'textlist', 'bytesio', 'file', 'none']
 
 
@@ -80,6 +81,10 @@ def gen_case(rng):
 	for name in rng.sample(HEADER_NAMES, rng.randrange(1, 5)):
 		v = word(rng, [u'abc XYZ 019', u'text/html; q=0.5, */*', u'äöü éè', u'"quoted, value"', u'a=b; c="d e"', u'\xa0x\xff', u'na\xc3\xafve \xc2\xa0\xc3\xa9', u'\xc3\xa4\xe2\x82\xacx'], 1, 12).strip()
 		fields.append((name, v or u'v'))
+	if rng.random() < 0.25:
+		# a field the composer has a default for, set by the caller - also to the empty value
+		name = rng.choice(DEFAULTED_NAMES)
+		fields.append((name, rng.choice((u'', u'', u'x/1.0', u'text/plain', u'none', u'*/*;q=0.1'))))
 	source = rng.choice(SOURCES)
 	n = rng.choice((0, 1, 5, 300, 4096, 4097, 9000))
 	if source in ('text', 'textlist'):
